@@ -11,6 +11,17 @@ import time
 VERIF = os.path.dirname(os.path.dirname(os.path.abspath(__file__)))
 
 
+def time_scale():
+    """Allowance factor for real-time bounds: 1 on an idle machine, growing with the 1-minute
+    load per core (a bound that is tight on an idle machine must not become a false alarm on
+    a busy one).  Bounds scale, lower bounds and counts never do."""
+    try:
+        per_core = os.getloadavg()[0] / max(1, os.cpu_count() or 1)
+    except OSError:
+        per_core = 0.0
+    return round(min(6.0, max(1.0, 2.0 * per_core)), 2)
+
+
 def run_driver(module, args, timeout, env=None):
     """python -m <module> <outfile> <args...>; returns (rc, parsed JSON or None, log text)."""
     repo = os.environ.get('VERIF_REPO', '/repo')
@@ -20,6 +31,7 @@ def run_driver(module, args, timeout, env=None):
     e = dict(os.environ)
     e['PYTHONPATH'] = VERIF + ':' + repo
     e['PYTHONHASHSEED'] = '0'
+    e.setdefault('VERIF_TIME_SCALE', str(time_scale()))
     if env:
         e.update(env)
     with open(log, 'w') as lf:
